@@ -1,10 +1,11 @@
 """C12 — cross-validation folds partition the data.
 
 * T0: translate/batch_arith.py regenerates Gen/BatchArith.lean (optimalBatchSizes, batchPartitioning);
-  Props/C12.lean is re-proved against it.
-* K-C12: every fold-construction function of CVDatasetTools.h is run on real LabeledData objects and on the
-  native driver of Model/CV.lean; the random draws of the real code are observed and fed to the model, which
-  checks them against its specification relation before applying them (tools/obsfeed.py).
+  Props/C12.lean and Props/C12Ops.lean are re-proved against it.
+* K-C12: histories — one of the fold-construction functions of CVDatasetTools.h on real LabeledData objects, then CVFolds
+  operations, further constructions and nested constructions — are run on the real code and on the native driver of
+  Model/CV.lean (which executes the statement-level loop models); the random draws of the real code are observed and fed
+  to the model, which checks them against its specification relation before applying them (tools/obsfeed.py).
 """
 import os, sys
 from vlib import core
@@ -12,41 +13,78 @@ from checks import dsgen
 
 TRUST = ("Lean 4.33 kernel; axioms at most propext/Classical.choice/Quot.sound (audited per run); "
          "optimalBatchSizes/batchPartitioning machine-translated from the C++ on every run (translate/batch_arith.py trusted, cross-checked "
-         "by the correspondence); fold construction is a hand-written model (Model/CV.lean: the element-dealing loops are modelled by their "
-         "net effect 'fold p receives its elements in processing order, cut by the computed batch sizes') tied to the C++ by the differential "
-         "correspondence only; ")
+         "by the correspondence); fold construction is a hand-written model (Model/CV.lean) that follows the C++ statement by statement "
+         "(validation-size counting, batchPartitioning, the element-dealing loop with batchElements / validationSetStart / batchSizes[batchNumber], "
+         "CVFolds(set, foldStart), detail::complement = copy + std::sort + std::set_difference, the fold loop of createCVBatch) and is tied to the "
+         "C++ by the differential correspondence; ")
 MANIFEST = dict(
-  text=("Theorems (Props/C12.lean, re-proved on every run against the regenerated batch arithmetic) for all partition-size vectors, maximum batch "
-        "sizes, fold counts, index vectors and RNG draws: the machine-translated batchPartitioning returns the prefix sums of the per-partition batch "
-        "counts as fold starts and the concatenated per-partition batch sizes (each block summing to its partition size) -- unconditionally when every "
-        "partition is non-empty, and for empty folds/classes under the explicit hypothesis that the source returns no batch for zero elements (false on "
-        "the unrepaired source: finding F1); CVFolds built from such starts have validation batch sets that are consecutive ranges, pairwise disjoint "
-        "and covering all batches; the validation parts concatenated are exactly the reorganised dataset; training indices are exactly the complement, "
-        "and validation + training elements are a permutation of the dataset; equal-size fold sizes floor(n/k)(+1) sum to n, differ by at most one and "
-        "equal what round-robin dealing delivers; for every admissible (class-sorted) dealing order of createCVSameSizeBalanced any two folds receive counts of "
-        "any class that differ by at most one; for the common tail "
-        "of createCVIndexed / createCVFullyIndexed / createCVIID / createCVSameSizeBalanced (model `regroup`): the reorganised dataset is well-formed, "
-        "keeps its shapes (repaired code, finding F11), is the picked elements grouped by requested fold (a permutation: each exactly once with its "
-        "label), and folds.validation(p) holds exactly the elements assigned to fold p; createCVIndexed yields a permutation of the original pairs; "
-        "createCVSameSize, for every permutation the shuffle may draw, yields a well-formed permutation of the original pairs in exactly the computed "
-        "batch layout with disjoint covering folds. The model is tied to the six fold-construction functions by an exact correspondence in which the "
-        "RNG draws of the real code are observed and checked against the model's relation, on unsigned / RealVector / CompressedRealVector / user-struct inputs under "
-        "ASan/UBSan (thorough tier exhaustive over (n, k, batch size) for n <= 30), plus an independent in-harness oracle for disjointness, cover, "
-        "complement, pairing, fold-size and class balance, requested fold, recreation indices and shape."),
-  note=TRUST + "checked by correspondence + oracle only (no theorem): that the dealing order the real createCVSameSizeBalanced draws is class-sorted (validSeq is "
-       "checked on every observed order) and that the element-dealing loops equal their net effect `regroup`; the RNG "
-       "itself is not modelled. Open findings F1, F11 (findings_proposed/C12.md; F12 and F9 were repaired upstream meanwhile) make the check print VIOLATION on the unrepaired tree.",
-  technique="Lean 4 proofs over the regenerated batch arithmetic, the fold index sets and the regrouping + differential correspondence with observed RNG draws (ASan/UBSan)",
-  design="§6 C12")
+  text=("Theorems (Props/C12.lean, Props/C12Ops.lean, Lemmas/{CVAny,DealLoop,CVEnd,CVMembers}.lean; re-proved on every run against the regenerated "
+        "batch arithmetic) for ALL element counts, fold counts, maximum batch sizes (0 = unlimited included), label distributions, index vectors and "
+        "permutations/draws standing for the RNG, with no side hypothesis left on the batch arithmetic: (1) the generated optimalBatchSizes / "
+        "batchPartitioning are total (0 elements -> no batch; batch size 0 -> one batch) with closed form: fold starts = prefix sums, per fold "
+        "ceil(p/m) non-empty batches <= m that differ by at most one and sum to p (fold_batch_layout, batchPartitioning_with_empty); (2) the "
+        "element-dealing loop of createCVIndexed / createCVFullyIndexed / detail::createCVSameSizeBalanced, modelled with its three vectors, never "
+        "leaves a vector and equals its specification `regroup` for every input (DealLoop.dealLoop_eq, regroupLoop_eq_regroup, dealInto_eq_regroup, "
+        "balancedMembers_eq_regroup: also the batch layout taken from floor(n/k)(+1) beforehand); (3) detail::complement as computed (sort + "
+        "set_difference) = the complement for every index set, unsorted or with repetitions (complement_as_computed, trainingFoldIndices_spec); "
+        "the fold loop of createCVBatch = cutting the shuffled batch numbers into floor(nb/k)(+1) (batchFoldsLoop_eq); (4) for ANY CVFolds object "
+        "(fold starts, explicit index sets in any order, createCVBatch, copies, repeated access) validation(i) = the listed batches in listed order, "
+        "training(i) = exactly the other batches in dataset order, both well-formed with the element shapes kept, together a permutation of the "
+        "dataset (any_folds_validation_training); (5) END TO END from the input dataset to the element lists of validation(p) / training(p): "
+        "createCVIndexed / createCVIID (whatever is drawn) / createCVFullyIndexed: validation(p) = exactly the elements requested for fold p in "
+        "processing order with their labels -- folds that receive no element included --, validation(p) ++ training(p) a permutation of the original "
+        "pairs, shapes of the input kept (createCVIndexed_end_to_end, createCVIID_end_to_end, createCVFullyIndexed_end_to_end, regroup_end_to_end); "
+        "createCVSameSize for every permutation: validation(p) = the p-th piece of the shuffled sequence cut into floor(n/k)(+1), fold sizes differ by "
+        "at most one, validation ++ training a permutation (createCVSameSize_validation_exact, _end_to_end); createCVSameSizeBalanced for every "
+        "class-wise shuffle: per class and pair of folds the member counts in validation(p), validation(q) differ by at most one (classes smaller "
+        "than the fold count and absent classes included), fold sizes floor(n/k)(+1) (createCVSameSizeBalanced_end_to_end), validation(p) = the "
+        "elements at first[j] with second[j] = p, i.e. the recreation indices describe the folds (createCVSameSizeBalanced_folds), for the "
+        "membership-vector overload (regression labels) every class is dealt in one window of dealing positions, so its members are spread over "
+        "any two folds with counts differing by at most one (balancedMembers_class_balance), and every outcome of the "
+        "class-wise shuffles is a class-sorted permutation (balanced_dealing_order_class_sorted: a consequence of the loop structure, not an "
+        "assumption); createCVBatch for every shuffle: dataset untouched, validation(i) = the dealt batches, training(i) = the others "
+        "(createCVBatch_end_to_end), folds own floor(nb/k)(+1) batches (createCVBatch_fold_batch_counts); createCVSameSize keeps the shapes "
+        "(createCVSameSize_shape_kept); nested cross-validation: folds of a training part partition that part and, with the outer validation part, "
+        "the outer dataset (nested_createCVIndexed); (6) the constructions and accessors are defined (no undefined behaviour) for every admissible "
+        "input incl. folds == 1, folds == n, n < batch size, empty folds, more folds than batches (regroup_total, createCVIndexed_total, "
+        "createCVFullyIndexed_total, createCVSameSize_total, createCVSameSizeBalanced_total, createCVSameSizeBalancedMembers_total, createCVBatch_total). The model is tied to the real code by an exact correspondence on histories: one of the six "
+        "construction functions, then CVFolds operations (show again / previous object unchanged / copy / CVFolds from fold starts / from explicit "
+        "unsorted, overlapping or emptied index sets / the same on WeightedLabeledData / a second construction on the reorganised dataset / "
+        "construction on training(i) or validation(i) = nested CV), RNG draws observed and checked against the model's relation, on unsigned / "
+        "RealVector / CompressedRealVector / user-struct inputs x class labels / RealVector regression labels (balanced: detail:: overload with a "
+        "membership vector; maximum batch size 256 goes through the default arguments, a few calls have 300-800 elements so that folds exceed the "
+        "default batch size) under ASan/UBSan (thorough tier exhaustive over (n, k, batch size incl. 0) for n <= 30), plus an independent in-harness "
+        "oracle: training indices = complement, validation/training elements = the batches of the dataset they name, disjointness, cover, pairing, "
+        "fold sizes, class balance, per-fold batch count / batch sizes (ceil, <= max, differ by <= 1), requested fold, recreation indices, shapes, "
+        "repeated access, weights stay with their elements. A third harness binary built WITHOUT NDEBUG runs the corpus and a sample of the "
+        "histories with the assertions of the real code (SIZE_CHECK / SHARK_ASSERT / RANGE_CHECK) active."),
+  note=TRUST + "modelling shortcut: subBatch's gather is modelled as picking the elements before the dealing loop runs; for well-formed datasets, "
+       "existing positions and fold numbers below k this is proved equal to dealing the positions and gathering every completed batch "
+       "(deal_positions_then_gather, pick_chunks), outside that domain both are undefined and only the correspondence ties them; "
+       "tied by correspondence only (no theorem): "
+       "SharedContainer::repartition / reorderElements inside createCVSameSize are the C03 models (their loops are proved in C03); sharing of batches between a CVFolds object and the dataset it was built from is not modelled "
+       "(the harness makes subsets independent before repartitioning them, as the documentation demands); the RNG itself is not modelled (every "
+       "theorem holds for all permutations / draws; observed draws are checked against the admissibility relation). createCVSameSizeBalanced: class "
+       "balance on the elements of the validation parts is proved for class labels; for the membership-vector overload it is stated on dealing positions. "
+       "Open findings F-C12-1 (CVFolds<WeightedLabeledData>::training does not compile) and F-C12-2 (debug builds abort on an empty last fold; "
+       "createCVIID hits it by chance) are reported as KNOWN-FINDING (findings_proposed/C12.md, patches C12-F-C12-1.patch, C12-F-C12-2.patch).",
+  technique="Lean 4 proofs (loop invariants, refinement of a statement-level model to its specification) over the regenerated batch arithmetic + differential correspondence on histories with observed RNG draws (ASan/UBSan)",
+  design="§6 C12, §14 C12")
 
 FINISH = dict(level="proof",
-              rule="self-contained fold-construction calls (function, fold count, max batch size, initial batching, labels, index vectors, seed) from one "
-                   "SplitMix64 stream, thorough tier additionally all (n, k, batch size) with n <= 30 for samesize/balanced/indexed; non-trivial = "
-                   "at least 2 folds and n not divisible by k or by the batch size; distinct = distinct op text")
+              rule="histories = one fold-construction call (function, fold count, max batch size incl. 0, initial batching, labels, index vectors, seed) "
+                   "followed by 0-4 CVFolds operations / further constructions / nested constructions, all from one SplitMix64 stream; thorough tier "
+                   "additionally all (n, k, batch size) with n <= 30 for samesize/balanced/indexed; non-trivial = a construction with at least 2 folds "
+                   "and n not divisible by k or by the batch size; distinct = distinct op text")
 
-LAKE_TARGETS = ["SharkVerif.Props.C12", "drv_c12"]
-TYPES = [("uint", []), ("real", ["3"]), ("sparse", ["7"]), ("blob", [])]
-RNG_OPS = "iid,samesize,balanced,batch"
+PROPS = ["SharkVerif.Props.C12", "SharkVerif.Props.C12Ops"]
+LAKE_TARGETS = PROPS + ["drv_c12"]
+# (name, harness input type, label type, driver arguments)
+TYPES = [("uint", "uint", "cls", []), ("real", "real", "cls", ["3"]), ("sparse", "sparse", "cls", ["7"]), ("blob", "blob", "cls", []),
+         ("real-reg", "real", "reg", ["3"]), ("sparse-reg", "sparse", "reg", ["7"])]
+TYPES_THOROUGH = [("uint-reg", "uint", "reg", []), ("blob-reg", "blob", "reg", [])]
+RNG_OPS = "iid,samesize,balanced,batch,again,nest"
+FN_NUM = {"indexed": 0, "fully": 1, "iid": 2, "samesize": 3, "balanced": 4, "batch": 5}
 
 
 def translate(ctx):
@@ -54,57 +92,162 @@ def translate(ctx):
 
 
 def build(ctx):
-    return ctx.harness("c12", ["c12.cpp"], repo_sources=["src/Core/Random.cpp"])
+    """two binaries (class labels / regression labels), compiled side by side"""
+    from concurrent.futures import ThreadPoolExecutor
+    with ThreadPoolExecutor(max_workers=2) as ex:
+        a = ex.submit(ctx.harness, "c12", ["c12.cpp"], repo_sources=["src/Core/Random.cpp"])
+        b = ex.submit(ctx.harness, "c12reg", ["c12.cpp"], flags=["-DC12_REG"], repo_sources=["src/Core/Random.cpp"])
+        a, b = a.result(), b.result()
+        # debug build (assertions active); built after the other two so that at most two compilers run at a time
+        c = ctx.harness("c12dbg", ["c12.cpp"], flags=["-UNDEBUG"], repo_sources=["src/Core/Random.cpp"])
+    return {"cls": a, "reg": b, "dbg": c} if a and b and c else None
 
 
-def labels_for(r, n, k):
-    style = r.below(6)
+def labels_for(ctx, r, n, k):
+    style = r.below(7)
+    ctx.hist("label_style", ["one-class", "binary", "multi", "classes-smaller-than-folds", "absent-class", "absent-classes-0-2", "sorted"][style])
     if style == 0: pool = [0]
     elif style == 1: pool = [0, 1]
     elif style == 2: pool = list(range(r.range(2, 5)))
     elif style == 3: pool = [0, 0, 0, 0, 0, 1, 2]          # classes smaller than the fold count
     elif style == 4: pool = [0, 2]                         # absent class
-    else: pool = [1, 3, 4]
+    elif style == 5: pool = [1, 3, 4]
+    else: return sorted(r.below(3) for _ in range(n))
     return [r.choice(pool) for _ in range(n)]
 
 
-def gen_op(ctx, r):
+def ceil_batches(size, bs):
+    return 0 if size == 0 else (1 if bs == 0 else (size + bs - 1) // bs)
+
+
+def gen_ctor(ctx, r):
+    """-> (op line, number of batches of folds.dataset() if the generator can know it else a guess, n)"""
     n = r.choice([1, 2, 3, 4, 5, 6, 7, 9, 10, 12, 16, 17, 24, 25, r.range(1, 60), r.range(1, 60)])
     k = r.choice([1, 2, 3, min(n, 5), n, r.range(1, n), r.range(1, n)])
     k = max(1, min(k, n))
-    bs = r.choice([1, 2, 3, 4, n, n + 1, r.range(1, n + 2)])
+    bs = r.choice([0, 1, 1, 2, 3, 4, n, n + 1, r.range(1, n + 2), r.range(1, n + 2), 256])   # 256: the harness uses the default argument
     m0 = r.choice([0, 1, 2, 3, n, r.range(1, n + 1)])
-    labels = labels_for(r, n, k)
+    if r.below(60) == 0:                                    # folds larger than the default batch size of 256
+        n = r.range(300, 800); k = r.choice([1, 2, 2, 3]); bs = r.choice([256, 256, 100, 0]); m0 = r.choice([0, 64, n])
+        ctx.count("large_n_folds_beyond_default_batch_size")
+    labels = labels_for(ctx, r, n, k)
     fn = r.choice(["indexed", "indexed", "fully", "iid", "samesize", "samesize", "balanced", "balanced", "batch"])
     seed = r.below(1000000)
     L = " ".join(map(str, labels))
     ctx.hist("function", fn); ctx.hist("n", min(n // 10 * 10, 60)); ctx.hist("folds", min(k, 10))
-    ctx.hist("n_mod_k", "divides" if n % k == 0 else "remainder"); ctx.hist("batch_size_rel", "1" if bs == 1 else ("<n" if bs < n else ">=n"))
+    ctx.hist("folds_class", "1" if k == 1 else ("n" if k == n else "between"))
+    ctx.hist("n_mod_k", "divides" if n % k == 0 else "remainder")
+    ctx.hist("batch_size_rel", "0=unlimited" if bs == 0 else "256=default-argument" if bs == 256 else "1" if bs == 1 else ("<fold" if bs < max(1, n // k) else "<n" if bs < n else ">=n"))
+    ctx.hist("initial_batching", "default" if m0 == 0 else "1" if m0 == 1 else "<n" if m0 < n else ">=n")
+    if bs and n // k > bs and (n // k) % ((n // k + bs - 1) // bs): ctx.count("fold_of_several_unequal_batches")
+    same = [n // k + (1 if i < n % k else 0) for i in range(k)]
     if fn == "indexed":
-        style = r.below(4)
+        style = r.below(5)
         if style == 0: idx = [i % k for i in range(n)]
         elif style == 1: idx = [r.below(k) for _ in range(n)]
         elif style == 2: idx = sorted(r.below(k) for _ in range(n))
+        elif style == 3: idx = [k - 1] * n                      # everything in the last fold, all others empty
         else:
             idx = [r.below(k) for _ in range(n)]
             if k >= 2:
                 gap = r.below(k)                                  # a fold that receives no element
                 idx = [x if x != gap else (x + 1) % k for x in idx]
-                ctx.count("indexed_with_empty_fold")
-        return f"indexed {k} {bs} {m0} {n} {L} " + " ".join(map(str, idx))
+        if len(set(idx)) < k: ctx.count("indexed_with_empty_fold")
+        nb = sum(ceil_batches(idx.count(p), bs) for p in range(k))
+        return f"indexed {k} {bs} {m0} {n} {L} " + " ".join(map(str, idx)), nb, n
     if fn == "fully":
         order = list(range(n))
         for i in range(n - 1, 0, -1):
             j = r.below(i + 1); order[i], order[j] = order[j], order[i]
         part = [r.below(k) for _ in range(n)]
-        return f"fully {k} {bs} {m0} {n} {L} " + " ".join(map(str, order)) + " " + " ".join(map(str, part))
+        if len(set(part)) < k: ctx.count("indexed_with_empty_fold")
+        nb = sum(ceil_batches(part.count(p), bs) for p in range(k))
+        return f"fully {k} {bs} {m0} {n} {L} " + " ".join(map(str, order)) + " " + " ".join(map(str, part)), nb, n
     if fn == "batch":
-        return f"batch {k} 0 {m0} {n} {seed} {L}"
-    return f"{fn} {k} {bs} {m0} {n} {seed} {L}"
+        nb = ceil_batches(n, 256 if m0 == 0 else m0)
+        ctx.hist("createCVBatch_batches_vs_folds", "fewer" if nb < k else "equal" if nb == k else "more")
+        return f"batch {k} 0 {m0} {n} {seed} {L}", nb, n
+    nb = sum(ceil_batches(x, bs) for x in same) if fn != "iid" else max(1, r.range(1, k + 1))
+    return f"{fn} {k} {bs} {m0} {n} {seed} {L}", nb, n
+
+
+def gen_follow(ctx, r, nb, n, kcur):
+    """one follow-up line on the state; nb = (guessed) number of batches of the current folds' dataset, kcur = its fold count
+    -> (line, nb, kcur)"""
+    kind = r.choice(["show", "prev", "copy", "starts", "starts", "sets", "sets", "wsets", "wstarts", "again", "again", "nest", "nest", "nest"])
+    ctx.hist("follow_up", kind)
+    if kind in ("show", "prev", "copy"):
+        return kind, nb, kcur
+    if kind in ("starts", "wstarts"):
+        m = r.range(1, min(nb, 4) + 1)
+        st = sorted(r.below(nb + 1) for _ in range(m))
+        if r.below(4): st[0] = 0
+        ctx.hist("starts_first", "0" if st[0] == 0 else ">0")
+        if len(set(st)) < len(st): ctx.count("starts_with_fold_without_batch")
+        return kind + " " + " ".join(map(str, st)), nb, (m if kind == "starts" else kcur)
+    if kind in ("sets", "wsets"):
+        m = r.range(1, 4)
+        style = r.below(5)
+        idx = list(range(nb))
+        for i in range(nb - 1, 0, -1):
+            j = r.below(i + 1); idx[i], idx[j] = idx[j], idx[i]           # unsorted on purpose
+        sets = [[] for _ in range(m)]
+        for b in idx: sets[r.below(m)].append(b)
+        if style == 0 and nb: sets[r.below(m)].append(r.below(nb))          # overlap / repetition: not a partition
+        if style == 1 and nb: sets[r.below(m)] = []                         # a fold without batch (and maybe batches in no fold)
+        if style == 2: sets = [sorted(s, reverse=True) for s in sets]       # descending
+        ctx.hist("index_sets", ["overlap", "emptied", "descending", "shuffled", "shuffled"][style])
+        if any(s != sorted(s) for s in sets): ctx.count("unsorted_index_set")
+        return kind + f" {m} " + " ".join(f"{len(s)} " + " ".join(map(str, s)) for s in sets).replace("  ", " ").strip(), nb, (m if kind == "sets" else kcur)
+    fn = r.choice(["indexed", "fully", "iid", "samesize", "balanced", "batch"])
+    k = r.choice([1, 2, 2, 3, 4, r.range(1, max(2, n // 2 + 1))])
+    bs = r.choice([0, 1, 2, 3, r.range(1, n + 2)])
+    tail = f"{FN_NUM[fn]} {k} {bs} {r.below(1000000)} {r.range(1, 8)} {r.below(8)}"
+    ctx.hist("second_construction", fn)
+    if kind == "again":
+        return "again " + tail, max(1, r.range(1, k + 2)), k
+    w = 0 if r.below(3) else 1
+    ctx.hist("nested_on", "training" if w == 0 else "validation")
+    return f"nest {w} {r.below(max(1, kcur))} " + tail, max(1, r.range(1, k + 2)), k
+
+
+def gen_case(ctx, r):
+    op, nb, n = gen_ctor(ctx, r)
+    if r.below(3) == 0:
+        return [op]
+    lines = ["new", op]
+    kcur = int(op.split()[1])
+    steps = r.range(1, 5)
+    ctx.hist("history_length", steps)
+    for _ in range(steps):
+        l, nb, kcur = gen_follow(ctx, r, nb, n, kcur)
+        lines.append(l)
+    return lines
+
+
+def measure_outcomes(ctx, cases, dcmd):
+    """what the generated lines led to (model side, element type uint): status per op kind, folds without element, depth"""
+    import subprocess
+    ops = [l for c in cases for l in c]
+    try:
+        out = subprocess.run(dcmd, input="\n".join(ops) + "\n", stdout=subprocess.PIPE, text=True, timeout=600).stdout.splitlines()
+    except Exception as e:                                            # evidence only
+        ctx.cov["op_outcome_error"] = str(e)[:200]
+        return
+    for o, l in zip(ops, out):
+        k = o.split()[0]
+        ctx.hist("op_outcome", f"{k}:{l.split()[0] if l else 'none'}")
+        if l.startswith("ok") and " F" in l:
+            nf = l.count(" val={")
+            empty = l.count("val={ish=[] lsh=[] part=[] lpart=[] el=[]}") + l.count("part=[] lpart=[] el=[]} train=")
+            ctx.hist("folds_of_result", min(nf, 10))
+            if empty: ctx.count("results_with_a_fold_without_element")
+            if "part=[] lpart=[] el=[]}}" in l: ctx.count("results_with_an_empty_training_part")
 
 
 def nontrivial(op):
     t = op.split()
+    if t[0] not in FN_NUM: return False
     k, bs, n = int(t[1]), int(t[2]), int(t[4])
     return k >= 2 and (n % k != 0 or (bs and n % bs != 0))
 
@@ -114,59 +257,93 @@ def run(ctx):
                     "correspondence harness harness/c12.cpp + generator checks/c12.py + tools/obsfeed.py (feeds observed RNG draws to the model)",
                     "hand-written model Model/CV.lean, Model/Dataset.lean",
                     "ASan/UBSan runtime for the real code's memory safety (not a theorem)"]
-    ctx.assumptions += ["1 <= folds, 1 <= maximum batch size, fold indices < folds, order vectors index existing elements",
-                        "std::shuffle / random::discrete are treated as arbitrary: the theorems hold for every permutation / draw"]
+    ctx.assumptions += ["1 <= folds, fold indices < folds, order vectors index existing elements; maximum batch size 0 = unlimited",
+                        "std::shuffle / random::discrete are treated as arbitrary: the theorems hold for every permutation / draw",
+                        "subsets are made independent before they are repartitioned (documented precondition: SharedContainer::repartition throws otherwise)"]
     translate(ctx)
-    ctx.prove(["SharkVerif.Props.C12"])
+    ctx.prove(PROPS)
     if not ctx.quick:
-        ctx.leanchecker(["SharkVerif.Props.C12"])
-    exe = build(ctx)
+        ctx.leanchecker(PROPS)
+    exes = build(ctx)
     drv = ctx.driver("drv_c12")
-    if not exe or not drv:
+    if not exes or not drv:
         return
     r = ctx.rng.fork("c12")
-    cases = dsgen.load_corpus("C12")
-    ctx.cov["corpus_cases"] = len(cases)
-    nrand = 3000 if ctx.quick else 12000
+    corpus = dsgen.load_corpus("C12")
+    ctx.cov["corpus_cases"] = len(corpus)
+    probes = [c for c in corpus if c[0] == "wprobe"]                 # compile-time probes of open findings: run on their own
+    dbg_cases = [c for c in corpus if c[0] == "debug"]               # for the binary built without NDEBUG
+    cases = [c for c in corpus if c[0] not in ("wprobe", "debug")]
+    nrand = 2500 if ctx.quick else 10000
     nrand = int(os.environ.get('VERIF_NCASES', nrand))            # self-tests: fewer random calls
-    cases += [[gen_op(ctx, r)] for _ in range(nrand)]
+    cases += [gen_case(ctx, r) for _ in range(nrand)]
     if not ctx.quick:
-        # all (n, k, batch size) triples with n <= 24
+        # all (n, k, batch size) triples with n <= 30
         for n in range(1, 31):
             for k in range(1, n + 1):
-                for bs in sorted({1, 2, 3, 5, n // 2 + 1, n, n + 1}):
+                for bs in sorted({0, 1, 2, 3, 5, n // 2 + 1, n, n + 1}):
                     L = " ".join(str((i * 7 + i // 3) % 3) for i in range(n))
                     cases.append([f"samesize {k} {bs} 0 {n} {n * 31 + k} {L}"])
                     cases.append([f"balanced {k} {bs} 3 {n} {n * 17 + k} {L}"])
                     cases.append([f"indexed {k} {bs} 2 {n} {L} " + " ".join(str(i % k) for i in range(n))])
         ctx.cov["exhaustive_triples_n_le_30"] = True
-    ctx.cov["evaluations"] = len(cases) * len(TYPES)
-    ctx.cov["distinct_nontrivial"] = len({c[0] for c in cases if nontrivial(c[0])})
-    ctx.sample({"ops": [c[0] for c in cases[len(cases) // 2: len(cases) // 2 + 4]]})
+    ctx.cov["evaluations"] = sum(len(c) for c in cases) * len(TYPES)
+    ctx.cov["distinct_nontrivial"] = len({l for c in cases for l in c if nontrivial(l)})
+    ctx.cov["histories_with_follow_up_ops"] = sum(1 for c in cases if len(c) > 1)
+    ctx.sample({"ops": [c for c in cases[len(cases) // 2: len(cases) // 2 + 3]]})
     feed = os.path.join(core.VERIF, "tools", "obsfeed.py")
     def one(t):
-        ty, shape = t
-        hcmd = [exe, ty]
-        dcmd = [sys.executable, feed, RNG_OPS, exe, ty, "--", drv, *shape]
-        return core.correspond(ctx, f"K-C12[{ty}]", cases, hcmd, dcmd, classify, keep_prefix=0, env=dsgen.ASAN_ENV, timeout=900 if ctx.quick else 3600)
-    dsgen.run_types(one, dsgen.types(TYPES, 'VERIF_C12_TYPES'))
+        name, ty, lt, shape = t
+        hcmd = [exes[lt], ty, lt]
+        dcmd = [sys.executable, feed, RNG_OPS, exes[lt], ty, lt, "--", drv, lt, *shape]
+        return core.correspond(ctx, f"K-C12[{name}]", cases, hcmd, dcmd, classify, keep_prefix=1, env=dsgen.ASAN_ENV, timeout=900 if ctx.quick else 3600)
+    dsgen.run_types(one, dsgen.types(TYPES + ([] if ctx.quick else TYPES_THOROUGH), 'VERIF_C12_TYPES'))
+    if os.environ.get('VERIF_C12_TYPES'):
+        return
+    measure_outcomes(ctx, cases[:3000], [sys.executable, feed, RNG_OPS, exes["cls"], "uint", "cls", "--", drv, "cls"])
+    # open findings that are visible at compile time only
+    core.correspond(ctx, "K-C12[probes]", probes, [exes["cls"], "uint", "cls"],
+                    [sys.executable, feed, RNG_OPS, exes["cls"], "uint", "cls", "--", drv, "cls"], classify, keep_prefix=0,
+                    env=dsgen.ASAN_ENV, timeout=300)
+    # debug build: the assertions (SIZE_CHECK, SHARK_ASSERT, RANGE_CHECK) of the real code must hold on admissible inputs
+    rd = ctx.rng.fork("c12-debug")
+    class _NoCov:                                                     # the debug cases do not enter the input distribution
+        def hist(self, *a, **k): pass
+        def count(self, *a, **k): pass
+    ndbg = 120 if ctx.quick else 600
+    for _ in range(ndbg):
+        c = gen_case(_NoCov(), rd)
+        dbg_cases.append(["debug"] + [l for l in c if l != "new"][: 1 if rd.below(2) else 4])
+    ctx.cov["debug_build_cases"] = len(dbg_cases)
+    core.correspond(ctx, "K-C12[debug-build]", dbg_cases, [exes["dbg"], "uint", "cls"],
+                    [sys.executable, feed, RNG_OPS, exes["dbg"], "uint", "cls", "--", drv, "cls"], classify, keep_prefix=1,
+                    env=dsgen.ASAN_ENV, timeout=900)
 
 
 def classify(ops, res):
     key, what = dsgen.classify(ops, res)
-    fn = ops[0].split()[0] if ops else "?"
+    fn = next((o.split()[0] for o in ops if o.split()[0] in FN_NUM), ops[0].split()[0] if ops else "?")
+    if key.startswith("oracle:") and "weighted-folds-training-does-not-compile" in key:
+        return ("F-C12-1:cvfolds-weighted-training-does-not-compile",
+                "CVFolds<WeightedLabeledData<I,L>>::training / validation cannot be instantiated: BaseWeightedDataset::indexedSubset returns the base class")
+    if res.crash and "numberOfPartitions == *std::max_element" in res.stderr:
+        return (f"F-C12-2:debug-size-check-rejects-empty-last-fold:{fn}",
+                f"debug build: {fn} aborts on SIZE_CHECK(numberOfPartitions == max(indices)+1) although every fold index is below numberOfPartitions "
+                f"(the last fold receives no element); ops {ops}")
     if key.startswith("oracle:") and "shape-lost" in key:
         return f"F11:shape-lost:{fn}", f"{fn}: the reorganised dataset / its folds lost the input shape; ops {ops}"
     return key, what
 
 
 def replay(ctx, rep):
-    exe = build(ctx); drv = ctx.driver("drv_c12")
-    cmd = list(rep.get("harness_cmd", [exe, "uint"])); cmd[0] = exe
+    exes = build(ctx); drv = ctx.driver("drv_c12")
+    cmd = list(rep.get("harness_cmd", [exes["cls"], "uint", "cls"]))
     ty = cmd[1] if len(cmd) > 1 else "uint"
-    shape = dict(TYPES).get(ty, [])
+    lt = cmd[2] if len(cmd) > 2 else "cls"
+    cmd = [exes[lt], ty, lt]
+    shape = {"real": ["3"], "sparse": ["7"]}.get(ty, [])
     feed = os.path.join(core.VERIF, "tools", "obsfeed.py")
-    dcmd = [sys.executable, feed, RNG_OPS, exe, ty, "--", drv, *shape]
+    dcmd = [sys.executable, feed, RNG_OPS, exes[lt], ty, lt, "--", drv, lt, *shape]
     res = core.run_case(ctx, cmd, dcmd, rep["ops"])
     for i in range(max(len(res.impl), len(res.model))):
         a = res.impl[i] if i < len(res.impl) else "<no output>"
